@@ -7,11 +7,13 @@ import os, subprocess, tempfile, concurrent.futures as cf
 import gen
 
 
-def ta_timbuk(A, name="A"):
+def ta_timbuk(A, name="A", extra_ops=()):
     rank = {}
     for (f, ks, p) in A.rules:
         rank[f] = len(ks)
-    out = ["Ops " + " ".join(f"s{f}:{r}" for f, r in sorted(rank.items())), f"Automaton {name}",
+    ops = [f"s{f}:{r}" for f, r in sorted(rank.items())]
+    ops += [o for o in extra_ops if o not in ops]
+    out = ["Ops " + " ".join(ops), f"Automaton {name}",
            "States " + " ".join(f"q{q}" for q in A.states()), "Final States " + " ".join(f"q{q}" for q in A.finals), "Transitions"]
     for (f, ks, p) in A.rules:
         out.append(f"s{f}" + (("(" + ",".join(f"q{k}" for k in ks) + ")") if ks else "") + f" -> q{p}")
@@ -55,10 +57,89 @@ FA = [["-r", "expl_fa", "-o", "alg=antichains"], ["-r", "expl_fa", "-o", "alg=co
       ["-r", "expl_fa", "-o", "alg=congr,order=breadth"], ["-r", "expl_fa"]]
 
 
+CLI_FLAGS = {"load": ["load"], "loadp": ["-p", "load"], "loads": ["-s", "load"], "witness": ["witness"], "cmpl": ["cmpl"],
+             "union": ["union"], "isect": ["isect"], "red": ["red"], "simdown": ["-o", "dir=down", "sim"], "simup": ["-o", "dir=up", "sim"]}
+
+
+def parse_dump(text, keep_names):
+    """the printed Timbuk text -> TA token; state names: q<N> -> N when keep_names, a number -> itself, else first appearance"""
+    import re
+    names = {}
+
+    def st(name):
+        if keep_names and re.fullmatch(r"q\d+", name):
+            return int(name[1:])
+        if re.fullmatch(r"\d+", name):
+            return int(name)
+        if name not in names:
+            names[name] = len(names)
+        return names[name]
+    lines = text.split("\n")
+    if "Transitions" not in [l.strip() for l in lines]:
+        return None
+    finals, rules, in_tr = [], [], False
+    for l in lines:
+        l = l.strip()
+        if l.startswith("Final States"):
+            finals = [st(x) for x in l[len("Final States"):].split()]
+        elif l == "Transitions":
+            in_tr = True
+        elif in_tr and l:
+            m = re.fullmatch(r"(\S+?)(?:\((.*)\))?\s*->\s*(\S+)", l)
+            if not m or not re.fullmatch(r"s\d+", m.group(1)):
+                return None
+            kids = [st(x.strip()) for x in m.group(2).split(",")] if m.group(2) else []
+            rules.append((int(m.group(1)[1:]), tuple(kids), st(m.group(3))))
+    return gen.TA(rules, sorted(set(finals))).tok()
+
+
+def cli_op(vata, toks, fa, fb, budget):
+    import re
+    rep, op = toks[1], toks[2]
+    A = gen.TA.parse(toks[3])
+    extra = []
+    if op == "cmpl":
+        ranks = [int(x) for x in toks[4].split(",")] if toks[4] != "-" else []
+        extra = [f"s{i}:{r}" for i, r in enumerate(ranks)]
+    open(fa, "w").write(ta_timbuk(A, "A", extra))
+    files = [fa]
+    if op in ("union", "isect"):
+        open(fb, "w").write(ta_timbuk(gen.TA.parse(toks[4]), "B"))
+        files.append(fb)
+    try:
+        p = subprocess.run([vata, "-r", rep] + CLI_FLAGS[op][:-1] + [CLI_FLAGS[op][-1]] + files, stdout=subprocess.PIPE, stderr=subprocess.PIPE,
+                           text=True, timeout=budget)
+    except subprocess.TimeoutExpired:
+        return "out=T"
+    if p.returncode != 0:
+        if "AddressSanitizer" in p.stderr or "runtime error" in p.stderr or p.returncode < 0:
+            return "out=C"
+        if "not implemented" in (p.stderr + p.stdout).lower() or "unimplemented" in (p.stderr + p.stdout).lower():
+            return "out=N"
+        return "out=E"
+    if op in ("simdown", "simup"):
+        ls = [l for l in p.stdout.split("\n") if l.strip()]
+        if len(ls) < 1:
+            return "out=E"
+        idx = {}
+        for m in re.finditer(r"(\d+): q(\d+),", ls[0]):
+            idx[int(m.group(1))] = int(m.group(2))
+        pairs = re.findall(r"\((\d+), (\d+)\)", ls[1]) if len(ls) > 1 else []
+        try:
+            rel = sorted({(idx[int(a)], idx[int(b)]) for a, b in pairs})
+        except KeyError:
+            return "out=E"
+        return "rel=" + (",".join(f"{a}.{b}" for a, b in rel) or "-")
+    tok = parse_dump(p.stdout, keep_names=op in ("load", "loadp", "loads", "witness", "red"))
+    return "out=E" if tok is None else "R=" + tok
+
+
 def one_case(vata, case, tmp, k, budget):
     toks = case.split(" ")
     kind = toks[0]
     fa, fb = os.path.join(tmp, f"a{k}.txt"), os.path.join(tmp, f"b{k}.txt")
+    if kind == "cliop":
+        return cli_op(vata, toks, fa, fb, budget)
     if kind in ("incl", "bddincl"):
         A, B = gen.TA.parse(toks[1]), gen.TA.parse(toks[2])
         A = gen.TA(list(dict.fromkeys(A.rules)), sorted(set(A.finals)))
